@@ -264,14 +264,17 @@ fn gen_cell(r: &mut Rng, ty: &str, d: u8, q: u8, e: Option<u8>, hazard: u64) -> 
 
 fn gen_requests(tier: &str, out: &str) {
     let mut r = Rng::from_env();
-    let (n_tbl, n_imp) = if tier == "thorough" { (6000, 4000) } else { (260, 200) };
-    let delims = [b',', b',', b',', b'|', b';', b'\t', b' ', b'a'];
-    let quotes = [b'"', b'"', b'"', b'`', b'$', b'\''];
+    let (n_tbl, n_imp) = if tier == "thorough" { (40000, 20000) } else { (3200, 1600) };
+    let delims = [b',', b',', b',', b',', b'|', b';', b'\t', b' ', b'a', b':', b'#', b'~', b'^', b'/', b'=', b'0', b'-'];
+    let quotes = [b'"', b'"', b'"', b'"', b'`', b'$', b'\'', b'%', b'@', b'.', b'1'];
     let mut s = String::new();
     for _ in 0..n_tbl {
         let d = *r.pick(&delims);
-        let q = *r.pick(&quotes);
-        let e = if r.chance(1, 8) { Some(*r.pick(&[b'!', b'\\', b'x'])) } else { None };
+        let mut q = *r.pick(&quotes);
+        while q == d {
+            q = *r.pick(&quotes);
+        }
+        let e = if r.chance(1, 7) { Some(*r.pick(&[b'!', b'\\', b'x', b'^', q, d, b'N'])) } else { None };
         let h = r.chance(1, 8);
         let ncols = 1 + r.below(4) as usize;
         let types: Vec<&str> = (0..ncols).map(|_| *r.pick(TYPES)).collect();
@@ -297,13 +300,16 @@ fn gen_requests(tier: &str, out: &str) {
         "\"a\nb\"", "\"a\"b", "a\"b", "2020-01-05", "1 day", "é",
     ];
     for i in 0..n_imp {
-        let d = if i % 5 == 0 { *r.pick(&delims) } else { b',' };
-        let q = if i % 7 == 0 { *r.pick(&quotes) } else { b'"' };
+        let d = if i % 3 == 0 { *r.pick(&delims) } else { b',' };
+        let mut q = if i % 4 == 0 { *r.pick(&quotes) } else { b'"' };
+        while q == d {
+            q = *r.pick(&quotes);
+        }
         let e = if r.chance(1, 10) { Some(b'\\') } else { None };
         let h = r.chance(1, 6);
         let ncols = 1 + r.below(3) as usize;
-        let types: Vec<&str> = (0..ncols).map(|_| *r.pick(&["str", "str", "i32", "bool", "date", "iv", "blob"])).collect();
-        let nrec = r.below(5);
+        let types: Vec<&str> = (0..ncols).map(|_| *r.pick(&["str", "str", "i32", "i64", "i16", "bool", "date", "iv", "ts"])).collect();
+        let nrec = r.below(6);
         let mut text = String::new();
         for _ in 0..nrec {
             let nf = match r.below(8) {
@@ -315,7 +321,21 @@ fn gen_requests(tier: &str, out: &str) {
                 if k > 0 {
                     text.push(d as char);
                 }
-                let p = r.pick(&pieces).replace('"', &(q as char).to_string()).replace(',', &(d as char).to_string());
+                // mostly a text that is valid for the column's type, sometimes quoted, sometimes junk
+                let valid: &[&str] = match types.get(k).copied().unwrap_or("str") {
+                    "i32" | "i64" | "i16" => &["0", "1", "-3", "32767", "+5", "007", ""],
+                    "bool" => &["true", "false", ""],
+                    "date" => &["2020-01-05", "1999-12-31", "2000-02-29", "0001-01-01", "+10000-01-01", "2020-1-5", ""],
+                    "iv" => &["1 day", "2 years 3 months", "-1 year", "5 seconds", "1_hour", ""],
+                    "ts" => &["1991-01-08 04:05:06", "2000-01-01 00:00:00", "0044-03-15 12:00:00 BC", ""],
+                    _ => &["a", "b", "x y", "NULL", "é", " ", ""],
+                };
+                let base: String = if r.chance(5, 6) { (*r.pick(valid)).to_string() } else { (*r.pick(&pieces)).to_string() };
+                let p = match r.below(6) {
+                    0 => format!("\"{}\"", base),
+                    _ => base,
+                };
+                let p = p.replace('"', &(q as char).to_string()).replace(',', &(d as char).to_string());
                 text.push_str(&p);
             }
             if r.chance(1, 10) {
